@@ -1,6 +1,9 @@
 package sse
 
-import "sync"
+import (
+	"net/http"
+	"sync"
+)
 
 // C13 — each event reaches exactly the callbacks subscribed to its type.
 
@@ -31,8 +34,12 @@ func vhLockFree(mu *sync.RWMutex) bool {
 }
 
 func vhC13() {
-	c := &Connection{callbacks: map[string]map[int]EventCallback{}, callbacksAll: map[int]EventCallback{}}
-	verifGuard(&c.mu, &c.callbacks, &c.callbacksAll, &c.callbackID)
+	// built through the public constructor so that the harness does not depend on the
+	// representation of the subscription tables
+	c := (&Client{}).NewConnection(&http.Request{Method: "GET", Header: http.Header{}})
+	// every map-typed and counter field of the Connection may only be read under the
+	// lock and written under the exclusive lock
+	verifGuardStruct(&c.mu, c)
 	var subs []*vhSubSpec
 	var log []vhCall
 	// a second goroutine that unsubscribes while a dispatch is in progress:
